@@ -43,9 +43,30 @@ Fixpoint span_num (s : bytes) : bytes * bytes :=
   | c :: r => if is_numc c then let (a, b) := span_num r in (c :: a, b) else ([], s)
   | [] => ([], [])
   end.
+(* the JSON number grammar as an automaton: optional minus; 0 or a non-zero digit followed by digits;
+   optional fraction (dot, one or more digits); optional exponent (e or E, optional sign, one or more digits) *)
+Inductive nst := NStart | NMinus | NZero | NInt | NDot | NFrac | NExp | NExpSign | NExpDig | NBad.
+Definition nstep (st : nst) (c : N) : nst :=
+  let d := is_digit c in
+  let e := N.eqb c 101 || N.eqb c 69 in
+  match st with
+  | NStart => if N.eqb c 45 then NMinus else if N.eqb c 48 then NZero else if d then NInt else NBad
+  | NMinus => if N.eqb c 48 then NZero else if d then NInt else NBad
+  | NZero => if N.eqb c 46 then NDot else if e then NExp else NBad
+  | NInt => if d then NInt else if N.eqb c 46 then NDot else if e then NExp else NBad
+  | NDot => if d then NFrac else NBad
+  | NFrac => if d then NFrac else if e then NExp else NBad
+  | NExp => if N.eqb c 43 || N.eqb c 45 then NExpSign else if d then NExpDig else NBad
+  | NExpSign => if d then NExpDig else NBad
+  | NExpDig => if d then NExpDig else NBad
+  | NBad => NBad
+  end.
+Definition num_gram (t : bytes) : bool :=
+  match fold_left nstep t NStart with NZero | NInt | NFrac | NExpDig => true | _ => false end.
+
 Definition num_ok (t : bytes) : bool :=
   match t with
-  | c :: _ => (is_digit c || N.eqb c 45) && forallb is_numc t
+  | c :: _ => (is_digit c || N.eqb c 45) && forallb is_numc t && num_gram t
   | [] => false
   end.
 
